@@ -240,8 +240,17 @@ class C09(FMonitor):
 
     def __init__(self, led):
         self.seen_cp = 0
+        self.seen_da = 0
 
     def on_step(self, led):
+        # an item is dropped only if no out-edge asked on its behalf in that instant had room
+        for (t, nid, it, asks) in led.discard_asks[self.seen_da:]:
+            for (ta, eid, ans, room) in asks:
+                if room > 0 and tname(led.edges[eid]) in ("Buffer", "Fleet"):
+                    led.V("C09", "drops-only-when-no-room", "%s dropped %s at %s although out-edge %s, asked for this item in the same instant, had %d free unreserved place(s) (it answered %s)"
+                          % (nid, getattr(it, "id", it), t, eid, room, ans), node=tname(led.nodes[nid]), answered=ans)
+                    break
+        self.seen_da = len(led.discard_asks)
         for nid, n in led.nodes.items():
             if getattr(n, "blocking", None) is True and n.stats.get("num_item_discarded", 0) != 0:
                 led.V("C09", "blocking-never-discards", "blocking %s %s reports %d discarded item(s)" % (tname(n), nid, n.stats["num_item_discarded"]),
